@@ -93,13 +93,7 @@ def check(ctx, rep):
             continue
         path_fns = cg.reach(roots)
         def host_kpath(f):
-            # a closure that lives in a helper spliced into exactly one function belongs to that function (the site of a finding does
-            # not move when the code around it is wrapped into a helper or a for_each closure)
-            if f.kind == 'Closure':
-                hosts = [h for h in http.built if h.kind != 'Closure' and f.root in (h.j.get('inlined') or [])]
-                if len(hosts) == 1:
-                    return hosts[0].kpath
-            return f.kpath
+            return http.host_root(f) if f.kind == 'Closure' else f.kpath
         for f in sorted(path_fns, key=lambda f: f.path):
             site = '%s@%s' % (f.kpath, cfg)
             hits = 0
